@@ -42,6 +42,9 @@ pub struct Case {
   pub pending_add: bool,
   pub fate: Fate,
   pub ops: Vec<CopyOp>,
+  /// how the two directory names relate (names that are textual prefixes of each other, nesting)
+  #[serde(default)]
+  pub naming: u8,
 }
 
 pub struct C28;
@@ -151,15 +154,25 @@ impl Property for C28 {
       2 => Just(CopyOp::Compact),
       1 => Just(CopyOp::Reopen),
     ];
-    (world, any::<bool>(), prop_oneof![2 => Just(Fate::Kept), 3 => Just(Fate::Deleted), 2 => Just(Fate::Diverged), 1 => Just(Fate::Moved)], vec(op, 0..10))
-      .prop_map(|(world, pending_add, fate, ops)| Case { world, pending_add, fate, ops })
+    (world, any::<bool>(), prop_oneof![2 => Just(Fate::Kept), 3 => Just(Fate::Deleted), 2 => Just(Fate::Diverged), 1 => Just(Fate::Moved)], vec(op, 0..10), 0u8..6)
+      .prop_map(|(world, pending_add, fate, ops, naming)| Case { world, pending_add, fate, ops, naming })
       .boxed()
   }
   fn run(case: &Case, _ctx: &Ctx) -> Outcome {
     let mut out = Outcome::new();
     let scratch = Scratch::new("c28");
-    let orig = scratch.sub("original");
-    let copy = scratch.sub("backup/copy");
+    // unrelated names, names that are textual prefixes of one another, a copy nested next to / below the original's parent
+    let (o, c) = match case.naming % 6 {
+      0 => ("original", "backup/copy"),
+      1 => ("idx.bak", "idx"),
+      2 => ("idx", "idx.bak"),
+      3 => ("data/index2", "data/index"),
+      4 => ("store/idx", "store/./restored"),
+      _ => ("a/b/idx", "a/idx"),
+    };
+    let orig = scratch.sub(o);
+    let copy = scratch.sub(c);
+    out.class(format!("naming:{}", case.naming % 6));
     let (k1, b) = (case.world.k1, case.world.b);
     let n = case.world.docs.len() + 12;
     let mut model = Contents::new();
